@@ -27,6 +27,13 @@ type stressT struct {
 	Arr   [2]float32        `json:"arr"`
 	Extra map[string]string `json:"extra,omitzero"`
 }
+type stressOv struct{ V int }
+type stressOvT struct {
+	P *stressOv            `json:"p"`
+	Q stressOv             `json:"q"`
+	L []*stressOv          `json:"l"`
+	M map[string]*stressOv `json:"m,omitempty"`
+}
 type stressInner struct {
 	X int8 `json:"x"`
 	stressEmb
@@ -218,6 +225,23 @@ func runStress(seed int64) Result {
 	if err != nil {
 		panic(err)
 	}
+	// For with SHARED ForOptions: the TypeSchemas entries are caller-owned Schema values (their slices with spare
+	// capacity, as a decoded or appended-to schema has); the overridden type is reached by value, through a
+	// pointer and as an element type.  The expected schema comes from a private copy of the options.
+	mkOvOpts := func() *jsonschema.ForOptions {
+		return &jsonschema.ForOptions{TypeSchemas: map[reflect.Type]*jsonschema.Schema{
+			reflect.TypeFor[stressOv](): {Types: append(make([]string, 0, 8), "string", "number", "boolean"),
+				Enum: append(make([]any, 0, 4), "x", 1.0), Required: mkOrd("q"), PropertyOrder: mkOrd("q"),
+				Properties: map[string]*jsonschema.Schema{"q": {Types: append(make([]string, 0, 4), "integer", "string")}}},
+		}}
+	}
+	ovOpts := mkOvOpts()
+	wantOv, err := jsonschema.For[stressOvT](mkOvOpts())
+	if err != nil {
+		panic(err)
+	}
+	wantOvBytes, _ := json.Marshal(wantOv)
+	wantOvShared, _ := json.Marshal(ovOpts.TypeSchemas[reflect.TypeFor[stressOv]()])
 	var remote jsonschema.Schema
 	json.Unmarshal([]byte(`{"$defs":{"t":{"$anchor":"a","type":"integer"}}}`), &remote)
 	loader := func(u *url.URL) (*jsonschema.Schema, error) { return &remote, nil }
@@ -279,6 +303,21 @@ func runStress(seed int64) Result {
 					mu.Lock()
 					addFail("concurrent-for", "For[stressT]", string(wantForBytes), string(b))
 					mu.Unlock()
+				}
+				{
+					s, err := jsonschema.For[stressOvT](ovOpts)
+					b, _ := json.Marshal(s)
+					if err != nil || !bytes.Equal(b, wantOvBytes) {
+						mu.Lock()
+						addFail("concurrent-for", "For[stressOvT] with shared ForOptions (TypeSchemas)", string(wantOvBytes), fmt.Sprint(string(b), err))
+						mu.Unlock()
+					}
+					sb, err := json.Marshal(ovOpts.TypeSchemas[reflect.TypeFor[stressOv]()])
+					if err != nil || !bytes.Equal(sb, wantOvShared) {
+						mu.Lock()
+						addFail("concurrent-marshal", "Marshal of the shared TypeSchemas entry while For uses it", string(wantOvShared), fmt.Sprint(string(sb), err))
+						mu.Unlock()
+					}
 				}
 				var inst any = map[string]any{}
 				if err := drs.ApplyDefaults(&inst); err != nil || !reflect.DeepEqual(inst, map[string]any{"a": 1.0, "o": map[string]any{"x": "d"}}) {
